@@ -4,6 +4,8 @@ from __future__ import annotations
 import itertools
 from fractions import Fraction
 
+import math
+
 from hypothesis import strategies as st
 
 from vlib import gen, models
@@ -24,7 +26,7 @@ ASSUMPTIONS = [
     "'labels joined in time order' = by start time; entries with equal start may be joined in either order",
     "union's span is the hull of A's span and B's entries (C11: grows just enough); only checked to contain everything and to validate",
 ]
-REQUIRED_CLASSES = ["pairs_grid:overlap", "pairs_grid:touching", "pairs_grid:nested", "pairs_random:identical", "pairs_random:nanosecond_offset"]
+REQUIRED_CLASSES = ["pairs_grid:overlap", "pairs_grid:touching", "pairs_grid:nested", "pairs_random:identical", "pairs_random:nanosecond_offset", "pairs_random:operand_edited_in_place_before", "point_pairs_random:points_close_but_distinct"]
 
 
 def _ents(spec):
@@ -67,7 +69,14 @@ def run_pair(case):
     A_s, B_s = case["A"], case["B"]
     ops = case.get("ops", ["difference", "intersection", "union", "mergeLabels"])
     A, B = mk_tier(A_s), mk_tier(B_s)
+    if case.get("pre"):
+        # the operand has been used (queries, crops) and then edited in place before the set operation
+        with quiet():
+            A.intersection(B), B.intersection(A)
+        A_s = models.apply_pre(A, A_s, case["pre"].get("A"))
+        B_s = models.apply_pre(B, B_s, case["pre"].get("B"))
     a0, b0 = snap_tier(A), snap_tier(B)
+    edited = A_s is not case["A"] or B_s is not case["B"]
     EA, EB = _ents(A_s), _ents(B_s)
     cuts = sorted({t for s, e, _ in EA + EB for t in (s, e)})
     covA, covB = models.covered_cells(EA, cuts), models.covered_cells(EB, cuts)
@@ -115,7 +124,7 @@ def run_pair(case):
         cu = models.covered_cells(got["u"], cuts)
         if cu != (covA | covB):
             raise Violation("law-union", f"union {got['u']} does not cover exactly A u B")
-    cl = classify(EA, EB)
+    cl = classify(EA, EB) + (["operand_edited_in_place_before"] if edited else [])
     nt = bool(EA) and bool(EB) and bool({"overlap", "touching"} & set(cl))
     return {"classes": cl, "nontrivial": nt}
 
@@ -148,22 +157,12 @@ def run_point_pair(case):
         cl.append("empty_operand")
     if tb - ta and ta:
         cl.append("new_points")
+    if any(x != y and math.isclose(x, y, abs_tol=1e-14) for x in ta for y in tb):
+        cl.append("points_close_but_distinct")
     return {"classes": cl, "nontrivial": bool(ta) and bool(tb)}
 
 
-def run_merge_tiers(case):
-    spec = case["tg"]
-    names = case["names"]
-    preserve = case["preserve"]
-    tg = mk_tg(spec)
-    before = snap_tg(tg)
-    with quiet():
-        res = tg.mergeTiers(names, preserve)
-    if snap_tg(tg) != before:
-        raise Violation("receiver-mutated", "mergeTiers changed its receiver")
-    sel = [t for t in spec["tiers"] if names is None or t["name"] in names]
-    ints = [t for t in sel if t["type"] == "interval"]
-    pts = [t for t in sel if t["type"] == "point"]
+def _check_merge_in_order(spec, res, sel, ints, pts, preserve):
     exp_names = []
     if preserve:
         exp_names += [t["name"] for t in spec["tiers"] if t not in sel]
@@ -198,6 +197,36 @@ def run_merge_tiers(case):
         times = sorted({t for ts in pts for t, _ in ts["entries"]})
         if [g[0] for g in snap_tier(acc)["entries"]] != times:
             raise Violation("entry-set", "merged point tier does not hold exactly the union of the time points")
+
+
+def run_merge_tiers(case):
+    spec = case["tg"]
+    names = case["names"]
+    preserve = case["preserve"]
+    tg = mk_tg(spec)
+    before = snap_tg(tg)
+    with quiet():
+        res = tg.mergeTiers(names, preserve)
+    if snap_tg(tg) != before:
+        raise Violation("receiver-mutated", "mergeTiers changed its receiver")
+    sel = [t for t in spec["tiers"] if names is None or t["name"] in names]
+    # The statement fixes "via union" but not the order of the fold: the order the caller listed the names in (what
+    # the code does) and the textgrid's own order are both accepted - the same one for interval and point tiers.
+    byname = {t["name"]: t for t in spec["tiers"]}
+    orders = [sel] if names is None else [[byname[n] for n in names], sel]
+    failures = []
+    ints = pts = []
+    for order in orders:
+        ints = [t for t in order if t["type"] == "interval"]
+        pts = [t for t in order if t["type"] == "point"]
+        try:
+            _check_merge_in_order(spec, res, sel, ints, pts, preserve)
+            failures = []
+            break
+        except Violation as v:
+            failures.append(v)
+    if failures:
+        raise failures[0]
     if preserve:
         for t in spec["tiers"]:
             if t not in sel and snap_tier(res.getTier(t["name"])) != snap_tier(mk_tier(t)):
@@ -275,7 +304,11 @@ def pair_cases(draw):
         B = {"type": "interval", "name": "B", "entries": ents, "minT": 0.0, "maxT": max([A["maxT"]] + bs), "style": style}
     else:
         B = draw(gen.interval_tier(style=style, max_segments=8, label=lab, name="B"))
-    return {"A": A, "B": B}
+    pre = None
+    if draw(st.integers(0, 3)) == 0:
+        one = st.one_of(st.none(), st.fixed_dictionaries({"delete": st.one_of(st.none(), st.integers(0, 7))}))
+        pre = {"A": draw(one), "B": draw(one)}
+    return {"A": A, "B": B, "pre": pre}
 
 
 @st.composite
@@ -288,7 +321,16 @@ def point_pair_cases(draw):
         A = dict(A, maxT=last)
         B = {"type": "point", "name": "B", "entries": [[last, "b"], [last + 1.0, "a"]], "minT": last, "maxT": last + 2.0, "style": style}
         return {"A": A, "B": B}
-    if draw(st.booleans()):
+    if A["entries"] and style != "grid" and draw(st.integers(0, 3)) == 0:
+        # B's points lie beside A's at less than the library's fuzzy entry equality: different time points all the same
+        ents = {}
+        for t, l in A["entries"]:
+            if draw(st.booleans()):
+                t2 = draw(st.sampled_from([t * (1 + 4e-10), math.nextafter(t, math.inf), t + 2e-15, t]))
+                ents[t2] = draw(gen.AB) if t2 != t else l
+        B = {"type": "point", "name": "B", "entries": [[t, ents[t]] for t in sorted(ents)], "minT": 0.0,
+             "maxT": max([A["maxT"]] + list(ents)), "style": style}
+    elif draw(st.booleans()):
         B = draw(gen.point_tier(style=style, name="B", label=gen.AB))
     else:
         keep = [e for e in A["entries"] if draw(st.booleans())]
@@ -308,6 +350,8 @@ def merge_cases(draw):
         names = None
     else:
         names = [n for n in allnames if draw(st.booleans())]
+        if draw(st.booleans()):
+            names = list(draw(st.permutations(names)))
     return {"tg": spec, "names": names, "preserve": draw(st.booleans())}
 
 
